@@ -610,6 +610,10 @@ func (w *vWorld) rdSize(L int) int {
 	return n
 }
 
+// vFlushEach (env VERIF_LB_FLUSH=1): write every op line through before the op runs, so that after a fatal error of the process
+// (not recoverable: stack overflow, …) the op being executed is the last line on file.  Used for the re-run after a crash.
+var vFlushEach = os.Getenv("VERIF_LB_FLUSH") != ""
+
 // vExecGuard runs one op with a watchdog: a call into the buffer that never returns (e.g. a walk over a node
 // chain that has become cyclic) is reported as "hang" and ends the process (exit code 3): the spinning
 // goroutine cannot be stopped and would disturb everything after it.
@@ -759,8 +763,9 @@ func VerifLBMain(args []string) int {
 		for i := 0; i < *nops; i++ {
 			line := w.gen()
 			fmt.Fprintln(ow, line)
-			if ownW != nil {
+			if ownW != nil || vFlushEach {
 				ow.Flush()
+				iw.Flush()
 			}
 			rep := vExecGuard(w, strings.Fields(line), ow, iw, ownW)
 			fmt.Fprintln(iw, rep)
